@@ -437,9 +437,14 @@ def check_rejections(ctx, inner):
     # in _check_input_gene_names a non-empty message raises on both arms
     cfg2 = cfg_of(cg)
     rd2 = rd_of(cg)
+    # the message accumulator: whatever is grown with `+=` in this function
+    accum = {st.target.id for st in ast.walk(cg.node)
+             if isinstance(st, ast.AugAssign)
+             and isinstance(st.target, ast.Name)}
     final_if = [n_ for n_ in cfg2.nodes if n_.kind == 'if'
-                and n_.id in rd2.live and 'error_msg' in unparse(
-                    n_.ast.test)]
+                and n_.id in rd2.live and accum & {
+                    x.id for x in ast.walk(n_.ast.test)
+                    if isinstance(x, ast.Name)}]
     ok = False
     for n_ in final_if:
         for (t_, lab) in cfg2.succ[n_.id]:
